@@ -1,4 +1,6 @@
 SPECIFICATION Spec
 CONSTANTS
   MaxDepth = 1
+  MutDepth = 0
+  DEV_StaleKeyOnMove = FALSE
 INVARIANT Emit
